@@ -318,6 +318,16 @@ def read_one(text, cfg, out, log, scratch, tag):
                 # the model with blank-only pieces kept, to allow either treatment
                 keep = T.tokenise(seen_text, blank_only='keep')
                 exp = ref.segs
+                # after_blank[k]: is the k-th expected segment directly preceded by a blank-only piece (whose error may be carried over)?
+                after_blank = []
+                prev_blank = False
+                for ks in keep.segs:
+                    if ks.id == '' and not ks.elements:
+                        prev_blank = True
+                        continue
+                    after_blank.append(prev_blank)
+                    prev_blank = False
+                after_blank += [False] * (len(exp) - len(after_blank))
                 i = 0
                 carry_blank = False
                 for seg in reader:
@@ -345,7 +355,7 @@ def read_one(text, cfg, out, log, scratch, tag):
                     if '1' in e.errors and '1' not in codes:
                         out.violate('leading-blank-unreported', 'leading-blank-unreported',
                                     '%s: segment #%d had leading blanks dropped without an error' % (tag, i + 1))
-                    if '1' not in e.errors and id_ok and '1' in codes and not _after_blank_only(keep, e):
+                    if '1' not in e.errors and id_ok and '1' in codes and not after_blank[i]:
                         out.violate('spurious-error', 'spurious-seg-error-1',
                                     '%s: segment #%d %r drew a leading-blank/identifier error it does not deserve' % (tag, i + 1, sid))
                     got.append((sid, vals))
